@@ -91,9 +91,10 @@ func (c *Context) AbortWithStatus(code int, msg ...string) {
 
 // Next processing, run all handlers
 func (c *Context) Next() {
-	c.index++
-	s := int8(len(c.handlers))
-	for ; c.index < s; c.index++ {
+	// Notice: index is the last started handler, it never goes past the end of the chain.
+	// So nested or repeated Next() calls cannot overflow it or make it reach abortIndex.
+	for s := int8(len(c.handlers)); c.index < s-1; {
+		c.index++
 		c.handlers[c.index](c)
 	}
 }
